@@ -13,16 +13,18 @@ from .. import gen
 
 TRANSLATOR = os.path.join(ROOT, 'harness', 'translate', 'py2gallina_c16.py')
 GEN_FILE = 'DensityGen.v'
-GEN_CHAIN = ['Gen/DensityGen.v', 'Proofs/GenDensityEq.v', 'Props/C16gen.v']
+GEN_CHAIN = ['Base/PyNumSeq.v', 'Gen/DensityGen.v', 'Proofs/GenDensityEq.v', 'Proofs/GenDensityEq2.v', 'Props/C16gen.v']
 EXTRA_PROPS = ('C16gen',)
 ASSUMPTION = gen.ASSUMPTION + (
-    '; C16 front end (py2gallina_c16.py): DensityEstimation.calculate_R_value_analytically, hat_function_non_symmetric, hat_function and '
-    'check_adjacency are translated after four source-level normalisations that are part of the trusted scheme (N1 local lambdas expanded at '
+    '; C16 front end (py2gallina_c16.py): DensityEstimation.calculate_R_value_analytically, hat_function_non_symmetric, hat_function, '
+    'check_adjacency, get_hat_domain (both the debug and the plain branch) and take_closest (inherited from MachineLearning) are translated after '
+    'source-level normalisations that are part of the trusted scheme (N1 local lambdas expanded at '
     'their calls, N2 if/else of parallel simple assignments -> conditional expressions, incl. lambdas chosen by the branch, N3 '
     '`if not all(G for d in range(n)): return` -> loop with early return, N4 chained comparison with a pure middle operand -> conjunction; '
-    'the rewritten bodies are printed in the generated file); self.dim : int and self.grid.modified_basis : bool are parameters; '
+    'N5 (take_closest) `if C: v = e else: v = [names]` -> `v = [names]; if C: v = e`; the rewritten bodies are printed in the generated file); additional operations with their semantics in coq/Base/PyNumSeq.v: filtering comprehensions / generators (py_filterM), max/min with default= and of float lists, `not list`, bisect_left as the binary search of the standard library (proved equal to the linear scan on strictly increasing lists); self.dim : int, self.debug : bool and self.grid.modified_basis : bool are parameters; '
     'not translated: build_R_matrix(_dimension_wise) (numpy 2D arrays, mutation), calculate_L2_scalarproduct (scipy nquad), the vectorised '
-    'hat variants (numpy broadcasting) and calculate_B* - tied by the correspondence only')
+    'hat variants and interpolate_points_component_grid (numpy broadcasting), calculate_B* (the scalar loops are statements inside methods that '
+    'also hold numpy code; their building blocks get_hat_domain, take_closest, hat_function_non_symmetric ARE translated) - tied by the correspondence only')
 
 
 def regenerate(chk):
